@@ -154,5 +154,66 @@ pub fn run(ctx: &mut Ctx) {
         ctx.oracle_runs += 20 * 256 * 256;
         ctx.count_n("step_table_steps", 20 * 256 * 256 * 2);
     }
+    // ---- oracle 3: the receiver recovers the sender's headers whatever way the TRANSPORT hands the bytes over:
+    //      a mixed sequence of server / client headers and raw payload, sent through the typed calls (array or
+    //      Write-based), received through the Read-based calls from a reader that delivers arbitrary fragments
+    //      with interruptions; compared item by item, and with the recurrence over the plaintext wire layout
+    {
+        use crate::c11::{fragments, ScriptedReader};
+        let mut rng = ctx.rng("oracle3");
+        let n = if ctx.quick() { 300 } else { 3000 };
+        for k in 0..n {
+            let key: [u8; 40] = rng.arr();
+            let items = 1 + rng.range(0, 10) as usize;
+            let mut script: Vec<(u8, u32, u32, Vec<u8>)> = Vec::new();          // kind 0 server header, 1 client header, 2 payload
+            let mut plain: Vec<u8> = Vec::new();
+            for _ in 0..items {
+                match rng.range(0, 3) {
+                    0 => { let (s, o) = (rng.range(0, 0xFFFF) as u32, rng.range(0, 0xFFFF) as u32); plain.extend_from_slice(&[(s >> 8) as u8, s as u8, o as u8, (o >> 8) as u8]); script.push((0, s, o, Vec::new())); }
+                    1 => { let (s, o) = (rng.range(0, 0xFFFF) as u32, rng.next() as u32); plain.extend_from_slice(&[(s >> 8) as u8, s as u8]); plain.extend_from_slice(&o.to_le_bytes()); script.push((1, s, o, Vec::new())); }
+                    _ => { let len = rng.range(0, 50) as usize; let p = rng.bytes(len); plain.extend_from_slice(&p); script.push((2, 0, 0, p)); }
+                }
+            }
+            let style = k as u64 % 4;
+            let sc = script.clone();
+            let mut frag_rng = Rng::new(ctx.seed, &format!("FRAG/{}", k));
+            let r = catch(move || {
+                let (mut e, mut d) = halves(key);
+                let mut wire: Vec<u8> = Vec::new();
+                for (i, (kind, s, o, p)) in sc.iter().enumerate() {
+                    match kind {
+                        0 => if i % 2 == 0 { wire.extend_from_slice(&e.encrypt_server_header(*s as u16, *o as u16)); } else { e.write_encrypted_server_header(&mut wire, *s as u16, *o as u16).unwrap(); },
+                        1 => if i % 2 == 0 { wire.extend_from_slice(&e.encrypt_client_header(*s as u16, *o)); } else { e.write_encrypted_client_header(&mut wire, *s as u16, *o).unwrap(); },
+                        _ => { let mut b = p.clone(); e.encrypt(&mut b); wire.extend_from_slice(&b); }
+                    }
+                }
+                let ev = fragments(&mut frag_rng, &wire, style);
+                let mut rd = ScriptedReader::new(&ev);
+                let mut got: Vec<(u8, u32, u32, Vec<u8>)> = Vec::new();
+                for (kind, _, _, p) in sc.iter() {
+                    match kind {
+                        0 => match d.read_and_decrypt_server_header(&mut rd) { Ok(h) => got.push((0, h.size as u32, h.opcode as u32, Vec::new())), Err(_) => { got.push((0, u32::MAX, u32::MAX, Vec::new())); break; } },
+                        1 => match d.read_and_decrypt_client_header(&mut rd) { Ok(h) => got.push((1, h.size as u32, h.opcode, Vec::new())), Err(_) => { got.push((1, u32::MAX, u32::MAX, Vec::new())); break; } },
+                        _ => { let mut b = vec![0u8; p.len()]; if std::io::Read::read_exact(&mut rd, &mut b).is_err() { break; } d.decrypt(&mut b); got.push((2, 0, 0, b)); }
+                    }
+                }
+                (wire, got, rd.left())
+            });
+            ctx.oracle_runs += 1;
+            let sj: Vec<String> = script.iter().map(|(kd, s, o, p)| match kd { 0 => format!("{{\"server_header\":[{},{}]}}", s, o), 1 => format!("{{\"client_header\":[{},{}]}}", s, o), _ => format!("{{\"payload\":\"{}\"}}", hex(p)) }).collect();
+            let det = |what: &str| format!("{{\"what\":\"{}\",\"key\":\"{}\",\"fragment_style\":{},\"script\":[{}]}}", what, hex(&key), style, sj.join(","));
+            match r {
+                None => ctx.fail("panic", det("panic in mixed header / payload traffic through the typed calls")),
+                Some((wire, got, left)) => {
+                    if wire != spec_enc(&hmac_sha1(&TBC_SEED, &key), &plain) { ctx.fail("typed_wire_bytes", det("wire of the typed calls differs from the recurrence over the headers' wire layout (size big-endian, opcode little-endian)")); }
+                    else if got != script {
+                        let at = got.iter().zip(script.iter()).position(|(a, b)| a != b).unwrap_or(got.len().min(script.len()));
+                        ctx.fail("fragmented_transport", det(&format!("the receiver, reading from a transport that delivers fragments, does not recover item {}", at)));
+                    } else if left != 0 { ctx.fail("fragmented_transport_consumed", det(&format!("{} wire bytes were left unread", left))); }
+                }
+            }
+            ctx.count(&format!("oracle3_fragment_style:{}", style));
+        }
+    }
     ctx.exhaustive.push(format!("step table: all 20 x 256 x 256 (position, previous, input) combinations, both directions, for {} key(s)", nkeys));
 }
